@@ -224,8 +224,8 @@ def _prec(e: Node) -> int:
         return _P_CMP
     if isinstance(e, AssignExpr):
         return _P_ASSIGN
-    if isinstance(e, Interval):
-        return _P_ASSIGN  # always parenthesise when nested in an operator
+    if isinstance(e, Exists) and e.negated:
+        return _P_NOT
     return _P_ATOM
 
 
@@ -445,6 +445,7 @@ class Func(Expr):
     distinct: bool = False
     star: bool = False
     over: Optional[WindowSpec] = None
+    raw_name: Optional[str] = field(default=None, compare=False)   # spelling in the source
 
     def to_sql(self, indent: int = 0) -> str:
         if self.star:
@@ -1098,8 +1099,13 @@ class Routine(Node):
     parse_error: Optional[SqlUnsupported] = field(default=None, compare=False)
 
     def statements(self) -> list:
-        """All Stmt nodes in the body (pre-order), including the body itself."""
-        return [n for n in self.body.walk() if isinstance(n, Stmt)] if self.body is not None else []
+        """All statements in the body (pre-order), including the body itself.
+        The implicit Blocks that merely group IF branches / loop bodies are not
+        counted; real BEGIN ... END blocks are."""
+        if self.body is None:
+            return []
+        return [n for n in self.body.walk()
+                if isinstance(n, Stmt) and not (isinstance(n, Block) and not n.explicit)]
 
     def header_sql(self) -> str:
         if self.kind == 'trigger':
